@@ -315,6 +315,20 @@ def crash_key(out):
     return what, site
 
 
+def finding_key(site, what=""):
+    """The same key for a generated failure and for the committed replay of the same defect, so that an entry
+    of known_findings (open or fixed) absorbs exactly its own defect."""
+    if "UnmarshalJSON" in site:
+        return "crash:clusterinfo.(*Producer).UnmarshalJSON"
+    if "TCPAddress" in site or "HTTPAddress" in site:
+        return "crash:null-producer"
+    if "GetNSQDStats" in site:
+        return "crash:null-stats-element"
+    if "E2eProcessingLatencyAggregate" in site:
+        return "crash:missing-e2e-latency"
+    return "crash:%s" % site
+
+
 def run_stream(ctx, binp, name, test, n):
     """Run one harness stream to the end, restarting after every process death.
     Returns (ops, impl, crashes) where crashes = [(op, panic text, site)]."""
@@ -400,7 +414,7 @@ def run(ctx):
             print("impl:  " + (impl if impl else "PROCESS DIED: %s in %s" % crash[:2]))
             print("model: " + mout.strip())
             if crash:
-                ctx.violation("crash:%s" % crash[1], "nsqadmin died (%s in %s) while serving the %s view" % (
+                ctx.violation(finding_key(crash[1]), "nsqadmin died (%s in %s) while serving the %s view" % (
                     crash[0], crash[1], req_key(op)), "op: %s\n\n%s\n" % (op, crash[2]))
             else:
                 bad = property_fails_on(op, impl)
@@ -416,7 +430,7 @@ def run(ctx):
                 ctx.log(err)
                 corr_broken.append(err.splitlines()[0])
             for op, what, site, trace in crashes:
-                ctx.violation("crash:%s" % site,
+                ctx.violation(finding_key(site),
                               "nsqadmin died (%s in %s) while serving the %s view" % (what, site, req_key(op)),
                               "op: %s\n\n%s\n" % (op, trace))
             opsp = os.path.join(ctx.work, name + ".all.ops")
@@ -432,11 +446,18 @@ def run(ctx):
             ctx.corr.setdefault("outcomes", {})[name] = kinds
             for o, i in list(zip(ops, impl))[:2]:
                 ctx.add_sample({"op": o[:400], "impl": i[:400]})
-            for o, i in zip(ops, impl):
+            failing = set()
+            for idx, (o, i) in enumerate(zip(ops, impl)):
                 bad = property_fails_on(o, i)
                 if bad:
-                    ctx.violation("view:%s:%s" % (req_key(o), i.split()[0]), bad, "op: %s\nimpl: %s\n" % (o, i))
-            diffs = ctx.diff_lines(impl, model[:len(impl)], name)
+                    failing.add(idx)
+                    key = "view:%s:%s" % (req_key(o), i.split()[0])
+                    if key == "view:channel:500":
+                        key = "view:channel-not-found"
+                    elif key == "view:topic:500" and " 0 " in o:
+                        key = "crash:missing-e2e-latency"   # TopicStats.Add on a topic without latency data (handler: 500)
+                    ctx.violation(key, bad, "op: %s\nimpl: %s\n" % (o, i))
+            diffs = [d for d in ctx.diff_lines(impl, model[:len(impl)], name, max_report=50) if d[0] not in failing][:5]
             for idx, a, b in diffs:
                 ctx.log("model/impl disagree on `%s`:\n   impl=%s\n  model=%s" % (ops[idx][:600], a[:600], b[:600]))
                 corr_broken.append("correspondence %s line %d" % (name, idx))
